@@ -569,21 +569,78 @@ impl RefTri {
     }
 }
 
-/// Distance from the origin of R^4 to the triangle (closest point), relative to the triangle's scale.
+/// Distance from the origin of R^4 to the triangle (exact closest point, Ericson's
+/// region walk — it only uses dot products, so it is valid in any dimension),
+/// relative to the triangle's scale.
 pub fn apex_closeness(tri: &[[f64; 4]; 3]) -> f64 {
     let scale = tri.iter().flatten().fold(0.0f64, |m, v| m.max(v.abs())).max(1e-30);
-    // minimise |l0 p0 + l1 p1 + l2 p2| over the simplex: dense barycentric grid + refinement is enough for a 5 % test
-    let mut best = f64::MAX;
-    let n = 24;
-    for i in 0..=n {
-        for j in 0..=(n - i) {
-            let (l0, l1) = (i as f64 / n as f64, j as f64 / n as f64);
-            let l2 = 1.0 - l0 - l1;
-            let d: f64 = (0..4).map(|k| (l0 * tri[0][k] + l1 * tri[1][k] + l2 * tri[2][k]).powi(2)).sum::<f64>().sqrt();
-            best = best.min(d);
+    let sub = |a: [f64; 4], b: [f64; 4]| -> [f64; 4] { std::array::from_fn(|k| a[k] - b[k]) };
+    let dot = |a: [f64; 4], b: [f64; 4]| -> f64 { (0..4).map(|k| a[k] * b[k]).sum() };
+    let add_s = |a: [f64; 4], b: [f64; 4], s: f64| -> [f64; 4] { std::array::from_fn(|k| a[k] + b[k] * s) };
+    let len = |a: [f64; 4]| dot(a, a).sqrt();
+    let (a, b, c) = (tri[0], tri[1], tri[2]);
+    let p = [0.0; 4];
+    let (ab, ac, ap) = (sub(b, a), sub(c, a), sub(p, a));
+    let (d1, d2) = (dot(ab, ap), dot(ac, ap));
+    let closest = 'c: {
+        if d1 <= 0.0 && d2 <= 0.0 {
+            break 'c a;
         }
-    }
-    best / scale
+        let bp = sub(p, b);
+        let (d3, d4) = (dot(ab, bp), dot(ac, bp));
+        if d3 >= 0.0 && d4 <= d3 {
+            break 'c b;
+        }
+        let vc = d1 * d4 - d3 * d2;
+        if vc <= 0.0 && d1 >= 0.0 && d3 <= 0.0 {
+            let v = if d1 - d3 != 0.0 { d1 / (d1 - d3) } else { 0.0 };
+            break 'c add_s(a, ab, v);
+        }
+        let cp = sub(p, c);
+        let (d5, d6) = (dot(ab, cp), dot(ac, cp));
+        if d6 >= 0.0 && d5 <= d6 {
+            break 'c c;
+        }
+        let vb = d5 * d2 - d1 * d6;
+        if vb <= 0.0 && d2 >= 0.0 && d6 <= 0.0 {
+            let w = if d2 - d6 != 0.0 { d2 / (d2 - d6) } else { 0.0 };
+            break 'c add_s(a, ac, w);
+        }
+        let va = d3 * d6 - d5 * d4;
+        if va <= 0.0 && (d4 - d3) >= 0.0 && (d5 - d6) >= 0.0 {
+            let den = (d4 - d3) + (d5 - d6);
+            let w = if den != 0.0 { (d4 - d3) / den } else { 0.0 };
+            break 'c add_s(b, sub(c, b), w);
+        }
+        let den = va + vb + vc;
+        if den == 0.0 {
+            // degenerate triangle: fall back to the nearest of the three edges' closest points
+            let on = |u: [f64; 4], v: [f64; 4]| {
+                let e = sub(v, u);
+                let l = dot(e, e);
+                let t = if l > 0.0 { (dot(sub(p, u), e) / l).clamp(0.0, 1.0) } else { 0.0 };
+                add_s(u, e, t)
+            };
+            let cands = [on(a, b), on(b, c), on(c, a)];
+            let mut best = cands[0];
+            for q in cands {
+                if len(q) < len(best) {
+                    best = q;
+                }
+            }
+            break 'c best;
+        }
+        let (v, w) = (vb / den, vc / den);
+        add_s(add_s(a, ab, v), ac, w)
+    };
+    // guard against round-off in the region walk with the three edges as well
+    let on = |u: [f64; 4], v: [f64; 4]| {
+        let e = sub(v, u);
+        let l = dot(e, e);
+        let t = if l > 0.0 { (dot(sub(p, u), e) / l).clamp(0.0, 1.0) } else { 0.0 };
+        len(add_s(u, e, t))
+    };
+    len(closest).min(on(a, b)).min(on(b, c)).min(on(c, a)) / scale
 }
 
 /// NaN anywhere in the depth window?
